@@ -50,11 +50,13 @@ def run(ctx):
     # the content of the files themselves
     conds.append(xh.Cond("annotate: content with unparseable expressions / undecodable bytes x style x options", "RD.py", "_rd", {}, timeout=tmo * 3, twin="_rd_reach"))
     conds.append(xh.Cond("spdx: undecodable LicenseRef- licence texts", "RD.py", "_bomrd", {}, timeout=tmo, twin="_bomrd_reach"))
+    conds.append(xh.Cond("download: an identifier a file may declare (any ASCII character, selected others) never makes the request escape as a non-URLError", "RD.py", "_url", {}, timeout=tmo * 2, twin="_url_reach"))
     nbytes = 3 if tier == "quick" else 4
     conds.append(xh.Cond(f"covered file: every byte string up to {nbytes} bytes decodes to text that can be written out again", "DEC.py", "_decb", {"nbytes": nbytes}, timeout=tmo * 3, twin="_decb_reach"))
     ctx.functions_encoded = [
         "reuse._annotate.add_header_to_file -> header.find_and_replace_header / add_new_header -> extract.contains_reuse_info / extract_reuse_info (real chain; open() modelled, decoding may fail)",
         "reuse.report.ProjectReport.bill_of_materials (licence-text section; open() modelled, decoding may fail)",
+        "reuse.download.download_license (URL construction; urlopen modelled)",
         "reuse.extract.decoded_text_from_binary on symbolic bytes (CrossHair's symbolic UTF-8 codec)",
         "reuse.global_licensing.ReuseTOML.from_dict, AnnotationsItem.from_dict, converters and validators (executed under CrossHair per value shape)",
         "reuse.cli.common.ClickObj.project (error mapping; Project.from_directory stubbed to raise)",
@@ -66,6 +68,7 @@ def run(ctx):
         "funnel": f"{nf} files, each succeeding or raising one of 11 exception classes",
         "annotate content": "6 content kinds (plain, empty, unparseable expression on top / further down / alone, valid header + unparseable one further down) x 6 unparseable expressions x 4 file types x decodable or not x replace x skip-existing x fallback-dot-license",
         "spdx licence texts": "1-2 LicenseRef- texts, each decodable or not",
+        "download identifier": "'My<c>License' with c any of the 128 ASCII characters or one of 9 other code points; urlopen replaced by its documented path validation + a 404 answer",
         "file bytes": f"every byte string of 1..{nbytes} bytes (covers every UTF-8 sequence length and every malformed prefix)",
     }
     ctx.stubs = ["open() in text mode: returns the text or raises UnicodeDecodeError (its documented contract on bytes that are not UTF-8) unless errors= says otherwise", "Project.from_directory (raises the chosen exception)", "FileReport.generate (raises the chosen exception or returns a minimal report)", "reuse.global_licensing._LICENSING.parse runs natively on concrete strings"]
@@ -93,6 +96,8 @@ def run(ctx):
             return f"annotate-content:{ex['why']}", f"annotate on a {ex['ext']} file with content {ex['content']!r} (expression {ex['bad_expression']!r}, undecodable={ex['undecodable']}, replace={ex['replace']}, skip_existing={ex['skip_existing']}): {ex['why']}", {"harness": "RD.py::_rd", "explain": ex}
         if c.func == "_bomrd":
             return f"spdx-licence-text:{ex['why']}", f"spdx with licence texts {ex['licences']} undecodable={ex['undecodable']}: {ex['why']}", {"harness": "RD.py::_bomrd", "explain": ex}
+        if c.func == "_url":
+            return f"download-url:{ex['identifier']!r}", f"download_license({ex['identifier']!r}) -> {ex['url']}: {ex['why']}", {"harness": "RD.py::_url", "explain": ex}
         if c.func == "_decb":
             return f"decode:{ex['why'][:40]}", f"file content {bytes(ex['bytes'])!r} is decoded to {ex['decoded']}: {ex['why']}", {"harness": "DEC.py::_decb", "explain": ex}
         if c.func == "_proj":
